@@ -3,6 +3,7 @@ package props
 import (
 	"encoding/json"
 	"fmt"
+	"math/big"
 	"net/url"
 	"os"
 	"os/exec"
@@ -691,9 +692,9 @@ func clip(s string, n int) string {
 
 // ---- stream C: the argument the emitted TS server passes to a handler -------------------
 
-// genTSServerFile builds a schema whose routes the emitted TS server can load: GET/DELETE routes
-// bind either path variables or query parameters (both together re-declare `const url`, the known
-// C13 finding), body verbs bind path variables and a JSON body.
+// genTSServerFile builds a schema for the emitted TS server: GET/DELETE routes that bind path
+// variables only, query parameters only, and both on one route (the latter load since /repo
+// 41e5e05 removed the second `const url`), and body verbs that bind path variables and a JSON body.
 func genTSServerFile(r *gen.R, idx int) *ir.Request {
 	pkg := "tsv.v1"
 	P := "." + pkg + "."
@@ -716,7 +717,9 @@ func genTSServerFile(r *gen.R, idx int) *ir.Request {
 		path, query bool
 		body        bool
 	}{{"GET", true, false, false}, {"GET", false, true, false}, {"DELETE", true, false, false}, {"DELETE", false, true, false},
-		{"POST", true, false, true}, {"PUT", true, false, true}, {"PATCH", false, false, true}, {"POST", true, false, true}}
+		{"POST", true, false, true}, {"PUT", true, false, true}, {"PATCH", false, false, true}, {"POST", true, false, true},
+		// path variables AND query parameters on one route (loads since /repo 41e5e05)
+		{"GET", true, true, false}, {"DELETE", true, true, false}}
 	for i, sh := range shapes {
 		in := &ir.Message{Name: fmt.Sprintf("Req%d", i)}
 		used := map[string]bool{}
@@ -734,8 +737,31 @@ func genTSServerFile(r *gen.R, idx int) *ir.Request {
 				}
 			}
 		}
+		if sh.query && sh.path {
+			// every conversion of generateQueryParamField next to path variables: 64-bit with and
+			// without int64_encoding=NUMBER, bool, enum
+			forced := []*ir.Field{
+				{Name: "big_plain", Kind: gen.Pick(r, []string{"int64", "uint64", "sint64", "fixed64", "sfixed64"})},
+				{Name: "big_num", Kind: gen.Pick(r, []string{"int64", "uint64", "sint64", "fixed64", "sfixed64"}), Ann: ir.Ann{Int64Enc: "NUMBER"}},
+				{Name: "flag_q", Kind: "bool"},
+				{Name: "shade_q", Kind: "enum", TypeName: P + "Color"},
+			}
+			for _, fl := range forced {
+				fl.Name = uniq(used, fl.Name)
+				fl.Number = no
+				no++
+				fl.Ann.Query = &ir.Query{Name: fl.Name}
+				if r.P(1, 3) {
+					fl.Ann.Query.Name = fl.Name + "_param"
+				}
+				in.Fields = append(in.Fields, fl)
+			}
+		}
 		if sh.query {
 			nq := 1 + r.Intn(4)
+			if sh.path {
+				nq = r.Intn(3)
+			}
 			for q := 0; q < nq; q++ {
 				fn := uniq(used, gen.Pick(r, names))
 				qa := &ir.Query{Name: fn}
@@ -773,6 +799,41 @@ func genTSServerFile(r *gen.R, idx int) *ir.Request {
 	}
 	f.Services = append(f.Services, svc)
 	return &ir.Request{Files: []*ir.File{f}, Generate: []string{f.Name}}
+}
+
+// normJSONDouble is normJSON with every number rounded to the nearest IEEE-754 double.
+func normJSONDouble(v any) any {
+	num := func(text string) any {
+		f, err := strconv.ParseFloat(text, 64)
+		if err != nil {
+			return map[string]any{"#": text}
+		}
+		return map[string]any{"#": strconv.FormatFloat(f, 'b', -1, 64)}
+	}
+	switch x := v.(type) {
+	case json.Number:
+		return num(x.String())
+	case map[string]any:
+		if len(x) == 1 {
+			for _, k := range []string{"$int", "$float"} {
+				if t, ok := x[k].(string); ok {
+					return num(t)
+				}
+			}
+		}
+		out := map[string]any{}
+		for k, e := range x {
+			out[k] = normJSONDouble(e)
+		}
+		return out
+	case []any:
+		out := make([]any, len(x))
+		for i, e := range x {
+			out[i] = normJSONDouble(e)
+		}
+		return out
+	}
+	return v
 }
 
 func uniq(used map[string]bool, base string) string {
@@ -1028,17 +1089,35 @@ func c07Handler(c *Ctx, r *gen.R) error {
 				shape = "query"
 				if len(hc.mi.pathVars) > 0 {
 					shape = "path"
+					if len(hc.mi.query) > 0 {
+						shape = "path+query"
+					}
 				}
 			} else if len(hc.mi.pathVars) > 0 {
 				shape = "path+body"
 			}
 			res.Count("handler_arg:" + shape)
+			// documented limitation, counted only: int64_encoding=NUMBER above 2^53 loses precision in JavaScript
+			for _, qf := range hc.mi.query {
+				if qf.Ann.Int64Enc != "NUMBER" || hc.mi.bodyVerb() {
+					continue
+				}
+				for _, kv := range hc.queryKV {
+					if kv["n"] == hc.mi.queryName(qf) {
+						if b, ok := new(big.Int).SetString(kv["v"], 10); ok && b.CmpAbs(new(big.Int).Lsh(big.NewInt(1), 53)) > 0 {
+							res.Count("handler_arg:number_encoded_query_value_beyond_2^53")
+						}
+					}
+				}
+			}
 			if hc.real["arg"] == nil {
 				res.Corr("ts_handler", fmt.Sprintf("%s %s: the emitted route did not reach the handler: %v %v", hc.mi.verb, hc.url, hc.real["err"], hc.real["body"]), replay)
 				continue
 			}
 			argAgrees := true
-			if diff := firstDiff(normJSON(hc.real["arg"]), normJSON(hc.model["arg"]), ""); diff != "" {
+			// every JavaScript number is an IEEE double and JSON.stringify prints its shortest
+			// round-trip digits: both sides are compared as doubles
+			if diff := firstDiff(normJSONDouble(hc.real["arg"]), normJSONDouble(hc.model["arg"]), ""); diff != "" {
 				argAgrees = false
 				res.Corr("handler_arg", fmt.Sprintf("%s %s: the real handler argument differs from Impl.handlerArg at %s", hc.mi.verb, hc.url, diff), replay)
 			} else {
